@@ -245,6 +245,7 @@ def evaluate(pre_entries, inv, umask=0o022, ignore=None, clone_ok=False):
     mapped = {}
     selected = []
     collisions = []
+    dup_target = False
     mustfail = None
     notes = []
     for s in srcs:
@@ -300,7 +301,10 @@ def evaluate(pre_entries, inv, umask=0o022, ignore=None, clone_ok=False):
                 continue
             pre_t = t.get(tgt)
             if tgt in mapped and mapped[tgt] != phys:
-                return Verdict("undefined", "two-sources-one-target")
+                # cp refuses this ("will not overwrite just-created"); xcp does not define which source wins.  Nothing is claimed
+                # about the mapped paths, but entries no source maps onto stay protected (the verdict carries the mapping)
+                dup_target = True
+                continue
             if pre_t is not None and k != "d":
                 collisions.append(tgt)
             src_e = t.get(phys)
@@ -344,6 +348,8 @@ def evaluate(pre_entries, inv, umask=0o022, ignore=None, clone_ok=False):
                 spec["mode"] = src_e["mode"] & ~umask
             expect[tgt] = spec
             mapped[tgt] = phys
+    if dup_target:
+        return Verdict("undefined", "two-sources-one-target", expect, mapped, selected, collisions, notes)
     # a mapped path whose parent chain passes through a mapped non-directory is undefined
     if fl.get("n") and collisions:
         mustfail = mustfail or "noclobber-collision"
